@@ -8,6 +8,7 @@ import (
 	"os"
 	"strconv"
 	"strings"
+	"sync"
 )
 
 type verifTraceEntry struct {
@@ -61,18 +62,37 @@ func verifInt64(name string) int64 {
 	_ = json.Unmarshal(verifRS.next("int", name), &v)
 	return v
 }
-func verifInt(name string) int                    { return int(verifInt64(name)) }
-func verifIntRange(name string, lo, hi int) int   { return int(verifInt64(name)) }
-func verifByte(name string) byte                  { return byte(verifInt64(name)) }
-func verifStr(name string, maxLen int, ranges string) string { return verifBytes(verifRS.next("str", name)) }
-func verifStrN(name string, n int, ranges string) string     { return verifBytes(verifRS.next("str", name)) }
+func verifInt(name string) int                  { return int(verifInt64(name)) }
+func verifIntRange(name string, lo, hi int) int { return int(verifInt64(name)) }
+func verifByte(name string) byte                { return byte(verifInt64(name)) }
+func verifStr(name string, maxLen int, ranges string) string {
+	return verifBytes(verifRS.next("str", name))
+}
+func verifStrN(name string, n int, ranges string) string {
+	return verifBytes(verifRS.next("str", name))
+}
 func verifPick(name string, alts ...string) string { return verifBytes(verifRS.next("pick", name)) }
 func verifChoice(name string, n int) int {
 	var v int
 	_ = json.Unmarshal(verifRS.next("choice", name), &v)
 	return v
 }
-func verifItoa(v int64) string { return strconv.FormatInt(v, 10) }
+func verifShared(f func()) {
+	// two evaluations at the same time, a few times over (the race detector compares their memory accesses)
+	for round := 0; round < 3; round++ {
+		var wg sync.WaitGroup
+		for g := 0; g < 2; g++ {
+			wg.Add(1)
+			go func() {
+				defer wg.Done()
+				f()
+			}()
+		}
+		wg.Wait()
+	}
+}
+
+func verifItoa(v int64) string   { return strconv.FormatInt(v, 10) }
 func verifFtoa(f float64) string { return strconv.FormatFloat(f, 'g', -1, 64) }
 
 func verifAssume(c bool) {
@@ -123,9 +143,9 @@ func verifParam(name string, def int) int {
 	return def
 }
 func verifConcreteInt(v int, lo, hi int) int { return v }
-func verifConcreteStr(s string) string      { return s }
-func verifConcreteBool(b bool) bool         { return b }
-func verifSymbolicMode() bool               { return false }
+func verifConcreteStr(s string) string       { return s }
+func verifConcreteBool(b bool) bool          { return b }
+func verifSymbolicMode() bool                { return false }
 
 type verifReplayFile struct {
 	Harness string            `json:"harness"`
